@@ -22,6 +22,11 @@ def main(argv):
     except ValueError:
         seed = 1
     modname = f"harness.props.{prop.lower()}"
+    # scratch files of this run (the generators' data files, C14 / C16) live in one directory that is removed when the
+    # run ends, whatever the verdict; worker processes inherit its name through the environment
+    import tempfile, shutil
+    run_tmp = tempfile.mkdtemp(prefix="verif_run_")
+    os.environ["VERIF_RUN_TMP"] = run_tmp
     try:
         if replay:
             from . import replay as rp
@@ -31,6 +36,8 @@ def main(argv):
         traceback.print_exc()
         print(f"[{prop}] harness error: no verdict", file=sys.stderr)
         return 2
+    finally:
+        shutil.rmtree(run_tmp, ignore_errors=True)
 
 
 if __name__ == "__main__":
